@@ -22,6 +22,9 @@ MUTANTS = [  # (contract module, qualname, file, regex, replacement, expect)  ex
  ("contracts.c08", "DAG.local_independencies", "pgmpy/base/DAG.py", r"- set\(nx.dfs_preorder_nodes\(self, variable\)\)", "", "break"),
  ("contracts.c15", "BayesianNetwork.add_edge", "pgmpy/models/BayesianNetwork.py", r"nx.has_path\(self, v, u\)", "nx.has_path(self, u, v)", "break"),
  ("contracts.c15", "BayesianNetwork.add_edge", "pgmpy/models/BayesianNetwork.py", r'if u == v:\n            raise ValueError\("Self loops are not allowed."\)', 'if False:\n            raise ValueError("Self loops are not allowed.")', "break"),
+ ("contracts.c15", "DAG.do", "pgmpy/base/DAG.py", r"            for parent in parents:\n                dag.remove_edge\(parent, node\)", "            for p_ in parents:\n                dag.remove_edge(p_, node)", "hold"),
+ ("contracts.c15", "BayesianNetwork.add_edge", "pgmpy/models/BayesianNetwork.py", r'        if u == v:\n            raise ValueError\("Self loops are not allowed."\)', '        unused_message = "Self loops are not allowed."\n        if v == u:\n            raise ValueError(unused_message)', "hold"),
+ ("contracts.c11", "HillClimbSearch._legal_operations", "pgmpy/estimators/HillClimbSearch.py", r"                    old_parents = model.get_parents\(Y\)\n                    new_parents = old_parents \+ \[X\]", "                    current = model.get_parents(Y)\n                    old_parents = current\n                    new_parents = current + [X]", "hold"),
  ("contracts.c15", "BayesianNetwork.remove_node", "pgmpy/models/BayesianNetwork.py", r"self.latents = self.latents - set\(\[node\]\)", "pass", "break"),
  ("contracts.c15", "BayesianNetwork.copy", "pgmpy/models/BayesianNetwork.py", r"model_copy.latents = set\(self.latents\)", "model_copy.latents = self.latents", "break"),
  ("contracts.c15", "DAG.do", "pgmpy/base/DAG.py", r"dag = self if inplace else self.copy\(\)", "dag = self", "break"),
@@ -34,7 +37,7 @@ MUTANTS = [  # (contract module, qualname, file, regex, replacement, expect)  ex
  ("contracts.c11", "HillClimbSearch._legal_operations", "pgmpy/estimators/HillClimbSearch.py", r"and \(\(Y, X\) not in black_list\)", "and ((X, Y) not in black_list)", "break"),
  ("contracts.c11", "HillClimbSearch._legal_operations", "pgmpy/estimators/HillClimbSearch.py", r"if len\(new_X_parents\) <= max_indegree:", "if len(old_Y_parents) <= max_indegree:", "break"),
  ("contracts.c01", "BaseEliminationOrder.get_elimination_order", "pgmpy/inference/EliminationOrder.py", r"ordering.append\(min_score_node\)\n", "ordering.append(min_score_node); ordering.append(min_score_node)\n", "break"),
- ("contracts.c01", "VariableElimination._get_elimination_order", "pgmpy/inference/ExactInference.py", r"elif to_eliminate != set\(elimination_order\):", "elif not to_eliminate.issubset(set(elimination_order)):", "break"),
+ ("contracts.c01", "VariableElimination._get_elimination_order", "pgmpy/inference/ExactInference.py", r"            return to_eliminate\n", "            return set(self.variables) - set(variables)\n", "break"),
  ("contracts.c14", "BayesianNetwork.to_markov_model", "pgmpy/models/BayesianNetwork.py", r"mm = MarkovNetwork\(moral_graph.edges\(\)\)", "mm = MarkovNetwork(self.to_undirected().edges())", "break"),
  ("contracts.c18", "Independencies.closure.<locals>.sg1", "pgmpy/independencies/Independencies.py", r"IndependenceAssertion\(ind.event1, ind.event2 - \{elem\}, ind.event3\)", "IndependenceAssertion(ind.event1, ind.event2 - {elem}, ind.event3 | {elem} if False else ind.event1)", "break"),
  ("contracts.c18", "IndependenceAssertion.__eq__", "pgmpy/independencies/Independencies.py", r"self.event2,\n            self.event1,\n            self.event3,\n        \) == other.get_assertion\(\)", "self.event2,\n            self.event1,\n            self.event2,\n        ) == other.get_assertion()", "break"),
